@@ -62,6 +62,8 @@ import TLX.Props.C02Dissect
 import TLX.Props.C02Out
 import TLX.Props.C15
 import TLX.Crypto.Toy
+import TLX.Props.C02Crypto
+import TLX.Props.C02Hello
 set_option linter.unusedSimpArgs false
 set_option linter.unusedVariables false
 namespace TLX.Props.C02Capstone
@@ -2105,4 +2107,510 @@ theorem fired_ex : pfired (pfold {} [⟨false, .initial, 0, 47, chMsg⟩]) [⟨t
     TlsMsgs.handleClientHello, TlsMsgs.chBody, TlsMsgs.handleServerHello,
     TlsMsgs.extsThenNewData, TlsMsgs.getExtensions, parseExts_nil, TlsMsgs.applyExts]
 end ExHs
+open TLX.Props.C02Pipeline TLX.Quic.CryptoStream TLX.Lemmas.CryptoStream TLX.Spec.TlsHandshakeFraming
+open TLX.Spec.TlsHello TLX.Lemmas.TlsHello
+
+/-! ## discharging the local parser hypothesis `PTrace` for conformant handshakes -/
+
+section Reassembly
+
+/-- no byte buffer of the parser holds a whole message (true whenever `handle_record` never raised) -/
+def AllDrained (fr : CryptoStream.State) : Prop := ∀ k, Drained recordRaises (fr.ks k).buf
+
+theorem allDrained_init : AllDrained CryptoStream.State.init := fun _ => drained_nil _
+
+/-- the CRYPTO frame object `update_session` gets for an input -/
+def frameOfIn (id : Nat) (c : CryptoIn) : CFrame := ⟨id, c.offset, c.data, c.length⟩
+
+/-- `update_session` when no other buffer holds a whole message: only the frame's own space moves (`kstep`) -/
+theorem tlsUpdate_kstep (t : Tls) (c : CryptoIn) (pt : PT) (hpt : ptOf c.ptype = some pt) (hd : AllDrained t.frames) :
+    tlsUpdate t c =
+      ({ t with frames := t.frames.set (c.isServer, pt)
+                  (kstep recordRaises (t.frames.ks (c.isServer, pt)) (frameOfIn t.nextId c)).1,
+                msgs := feedRecords t.msgs (kstep recordRaises (t.frames.ks (c.isServer, pt)) (frameOfIn t.nextId c)).2.1,
+                nextId := t.nextId + 1 },
+       if (kstep recordRaises (t.frames.ks (c.isServer, pt)) (frameOfIn t.nextId c)).2.2 then some .index else none) := by
+  unfold tlsUpdate
+  simp only [hpt]
+  have := update_own_space recordRaises t.frames (c.isServer, pt) (frameOfIn t.nextId c) (fun q _ => hd _)
+  unfold frameOfIn at this ⊢
+  rw [this]
+
+theorem implFrame_take_prefix (frs : List Bytes) (j : Nat) :
+    implFrame (frs.take j).flatten <+: implFrame frs.flatten := by
+  have h : frs.flatten = (frs.take j).flatten ++ (frs.drop j).flatten := by
+    rw [← List.flatten_append, List.take_append_drop]
+  rw [h, (msgLoop_append _ _).1]
+  exact List.prefix_append _ _
+
+/-- what `PTrace` demands of the parser state after an input of direction `srv` and packet type `ptype` that left `new_data` set -/
+def TCond (cr csel : Bytes) (srv : Bool) (ptype : PType) (st : TlsMsgs.State) : Prop :=
+  st.clientRandom = some cr ∧ ∃ cs, st.ciphersuite = some cs ∧ (¬ (srv = false ∧ ptype = .initial) → cs = csel)
+
+/-- the wire view of an input -/
+def wireIn (c : CryptoIn) : Wire := (c.offset, c.data, c.length)
+
+theorem idsOK_snoc (D : List CFrame) (f : CFrame) (h : IdsOK D) (hlt : ∀ g ∈ D, g.id < f.id) : IdsOK (D ++ [f]) := by
+  intro a ha b hb hab
+  rcases List.mem_append.mp ha with ha1 | ha1
+  · rcases List.mem_append.mp hb with hb1 | hb1
+    · exact h a ha1 b hb1 hab
+    · simp only [List.mem_singleton] at hb1; rw [hb1] at hab; have := hlt a ha1; omega
+  · rcases List.mem_append.mp hb with hb1 | hb1
+    · simp only [List.mem_singleton] at ha1; rw [ha1] at hab; have := hlt b hb1; omega
+    · simp only [List.mem_singleton] at ha1 hb1; rw [ha1, hb1]
+
+/-- ONE PHASE of a handshake: CRYPTO inputs of one (direction, packet type) space that are fragments of a cut `frs` of that
+    space's stream, in any order, duplicates allowed, interleaved with nothing else. If `handle_record` raises on no message
+    of the stream and the message effects satisfy `hMI` (an invariant `MI` indexed by the messages handed on so far), then
+    `PTrace` for these inputs followed by `rest` reduces to `PTrace` for `rest` from any state the phase can end in. -/
+theorem ptrace_phase (cr csel : Bytes) (srv : Bool) (ptype : PType) (pt : PT) (hpt : ptOf ptype = some pt)
+    (frs : List Bytes) (hne : ∀ c ∈ frs, c ≠ [])
+    (hnr : ∀ m ∈ implFrame frs.flatten, recordRaises m = false)
+    (MI : List Bytes → TlsMsgs.State → Prop)
+    (hMI : ∀ cum new st, cum ++ new <+: implFrame frs.flatten → MI cum st → st.newData = false →
+      MI (cum ++ new) { feedRecords st new with newData := false } ∧
+      ((feedRecords st new).newData = true → TCond cr csel srv ptype (feedRecords st new)))
+    (rest : List CryptoIn) (ins : List CryptoIn)
+    (hins : ∀ c ∈ ins, c.isServer = srv ∧ c.ptype = ptype ∧
+      ∃ i, frs[i]? = some c.data ∧ c.offset = bnd frs i ∧ c.length = c.data.length)
+    (t : Tls) (D : List CFrame) (cum : List Bytes)
+    (hd : AllDrained t.frames) (hinv : Inv frs D (t.frames.ks (srv, pt)) cum)
+    (hids : ∀ g ∈ D, g.id < t.nextId) (hidsok : IdsOK D) (hmi : MI cum t.msgs) (hnd : t.msgs.newData = false)
+    (hcont : ∀ (t' : Tls) (D' : List CFrame) (cum' : List Bytes), AllDrained t'.frames →
+      Inv frs D' (t'.frames.ks (srv, pt)) cum' → (∀ g ∈ D', g.id < t'.nextId) → IdsOK D' → MI cum' t'.msgs →
+      t'.msgs.newData = false → (∀ k', k' ≠ (srv, pt) → t'.frames.ks k' = t.frames.ks k') →
+      D'.map C02Crypto.wire = D.map C02Crypto.wire ++ ins.map wireIn → PTrace cr csel t' rest) :
+    PTrace cr csel t (ins ++ rest) := by
+  induction ins generalizing t D cum with
+  | nil => exact hcont t D cum hd hinv hids hidsok hmi hnd (fun _ _ => rfl) (by simp)
+  | cons c ins ih =>
+    obtain ⟨hsrv, hpty, i, hi1, hi2, hi3⟩ := hins c (List.mem_cons_self ..)
+    have hpt' : ptOf c.ptype = some pt := by rw [hpty]; exact hpt
+    have hfrag : IsFrag frs (frameOfIn t.nextId c) := ⟨i, hi1, hi2, hi3⟩
+    have hidsok' : IdsOK (D ++ [frameOfIn t.nextId c]) := idsOK_snoc D _ hidsok hids
+    have hstep := inv_step frs hne D (t.frames.ks (srv, pt)) cum (frameOfIn t.nextId c) hinv hfrag hidsok'
+    -- the new messages are part of the stream's messages
+    have hpre : cum ++ (kstep never (t.frames.ks (srv, pt)) (frameOfIn t.nextId c)).2.1 <+: implFrame frs.flatten := by
+      obtain ⟨⟨j, _, _, hm, _⟩, _⟩ := hstep
+      rw [hm]; exact implFrame_take_prefix frs j
+    have hnew : ∀ m ∈ (kstep never (t.frames.ks (srv, pt)) (frameOfIn t.nextId c)).2.1, recordRaises m = false :=
+      fun m hm => hnr m (hpre.subset (List.mem_append_right _ hm))
+    have hk : kstep recordRaises (t.frames.ks (srv, pt)) (frameOfIn t.nextId c) =
+        kstep never (t.frames.ks (srv, pt)) (frameOfIn t.nextId c) := by
+      simp only [kstep]
+      rw [msgLoop_noraise recordRaises _ hnew]
+    have hup := tlsUpdate_kstep t c pt hpt' hd
+    rw [hsrv, hk] at hup
+    have hraised : (kstep never (t.frames.ks (srv, pt)) (frameOfIn t.nextId c)).2.2 = false := by
+      simp only [kstep]; exact msgLoop_never_raised _
+    rw [hraised] at hup
+    simp only [Bool.false_eq_true, if_false] at hup
+    obtain ⟨m1, m2⟩ := hMI cum _ t.msgs hpre hmi hnd
+    -- drained afterwards
+    have hd' : AllDrained (t.frames.set (srv, pt) (kstep never (t.frames.ks (srv, pt)) (frameOfIn t.nextId c)).1) := by
+      have hown := update_own_space recordRaises t.frames (srv, pt) (frameOfIn t.nextId c) (fun q _ => hd _)
+      have := C02Crypto.update_keeps_drained recordRaises t.frames (srv, pt) (frameOfIn t.nextId c) hd
+        (by rw [hown, hk]; exact hraised)
+      rw [hown, hk] at this
+      exact this
+    show PTrace cr csel t (c :: (ins ++ rest))
+    unfold PTrace
+    rw [hup]
+    refine ⟨rfl, ?_, ?_⟩
+    · intro hn
+      obtain ⟨q1, cs, q2, q3⟩ := m2 hn
+      exact ⟨q1, cs, q2, fun hh => q3 (by rw [← hsrv, ← hpty]; exact hh)⟩
+    · apply ih (fun c' hc' => hins c' (List.mem_cons_of_mem _ hc')) _ (D ++ [frameOfIn t.nextId c])
+        (cum ++ (kstep never (t.frames.ks (srv, pt)) (frameOfIn t.nextId c)).2.1)
+      · exact hd'
+      · simpa [clearND, State.set] using hstep
+      · intro g hg
+        simp only [clearND]
+        rcases List.mem_append.mp hg with hg | hg
+        · have := hids g hg; omega
+        · simp only [List.mem_singleton] at hg; subst hg; simp [frameOfIn]
+      · exact hidsok'
+      · simpa [clearND] using m1
+      · simp [clearND]
+      · intro t' D' cum' a1 a2 a3 a4 a5 a6 a7 a8
+        apply hcont t' D' cum' a1 a2 a3 a4 a5 a6
+        · intro k' hk'
+          rw [a7 k' hk']
+          simp [clearND, State.set, hk']
+        · rw [a8]; simp [C02Crypto.wire, frameOfIn, wireIn]
+
+end Reassembly
+section Messages
+
+/-- a handshake message with a non-empty body at the head of a buffer is handed on whole; the loop goes on behind it -/
+theorem msgLoop_handshake_cons (t : Nat) (body rest : Bytes) (hb : body ≠ []) (hl : body.length < 16777216) :
+    implFrame (handshake t body ++ rest) = handshake t body :: implFrame rest ∧
+    rem (handshake t body ++ rest) = rem rest := by
+  have hlen : (handshake t body).length = 4 + body.length := handshake_length t body
+  have hpos : 0 < body.length := List.length_pos_iff.mpr hb
+  have hn : Bytes.beNat (Bytes.slice (handshake t body ++ rest) 1 4) = body.length := by
+    rw [slice14_append _ _ (by omega)]; exact handshake_lenfield t body hl
+  unfold implFrame rem
+  rw [msgLoop]
+  simp only [List.length_append, hlen, hn]
+  rw [if_neg (by omega), if_neg (by omega)]
+  have ht : (handshake t body ++ rest).take (4 + body.length) = handshake t body := by
+    rw [← hlen]; simp
+  have hd : (handshake t body ++ rest).drop (4 + body.length) = rest := by
+    rw [← hlen]; simp
+  simp [ht, hd, never]
+
+theorem implFrame_nil : implFrame [] = [] ∧ rem [] = [] := by
+  unfold implFrame rem; rw [msgLoop_short never [] (by simp)]; exact ⟨rfl, rfl⟩
+
+end Messages
+
+section Conformant
+open TLX.Quic.TlsMsgs
+
+theorem feed_one (T : Nat) (hT : T < 256) (body : Bytes) (st : TlsMsgs.State) :
+    feedRecords st [handshake T body] = (handleRecord st T (handshake T body)).1 := by
+  have : handshake T body = UInt8.ofNat T :: (u24 body.length ++ body) := by
+    simp [handshake, u8_eq]
+  simp only [feedRecords, List.foldl_cons, List.foldl_nil]
+  rw [this]
+  simp [Nat.mod_eq_of_lt hT]
+
+theorem raises_one (T : Nat) (hT : T < 256) (body : Bytes) :
+    recordRaises (handshake T body) = (handleRecord {} T (handshake T body)).2.isSome := by
+  have : handshake T body = UInt8.ofNat T :: (u24 body.length ++ body) := by
+    simp [handshake, u8_eq]
+  unfold recordRaises
+  rw [this]
+  simp [Nat.mod_eq_of_lt hT]
+
+theorem helloType_other (T : Nat) (hT : T < 256) (h1 : T ≠ 1) (h2 : T ≠ 2) (h8 : T ≠ 8) (body : Bytes) :
+    helloType (handshake T body) = false := by
+  have : handshake T body = UInt8.ofNat T :: (u24 body.length ++ body) := by
+    simp [handshake, u8_eq]
+  rw [this]
+  simp only [helloType, Bool.or_eq_false_iff, beq_eq_false_iff_ne]
+  refine ⟨⟨?_, ?_⟩, ?_⟩ <;> (intro h; have := congrArg UInt8.toNat h; simp [Nat.mod_eq_of_lt hT] at this; omega)
+
+/-- a conformant handshake's TLS side: the messages (RFC 8446 encoders of `Spec/TlsHello.lean`) and how their CRYPTO streams
+    are cut and delivered -/
+structure ConfHs where
+  ch : ClientHello
+  sh : ServerHello
+  shExts : List Ext
+  /-- EncryptedExtensions -/
+  ee : List Ext
+  /-- bodies of Certificate, CertificateVerify, server Finished, client Finished -/
+  cert : Bytes
+  cv : Bytes
+  sfin : Bytes
+  cfin : Bytes
+  /-- the ClientHello cut into the fragments the client's Initial packets carry, and the CRYPTO frames as delivered:
+      every fragment at least once, in any order, exact duplicates allowed -/
+  chFrs : List Bytes
+  chDl : List Wire
+  chDups : List Wire
+  /-- the server's Handshake flight cut into the fragments of its CRYPTO frames, delivered in stream order -/
+  sFrs : List Bytes
+
+def ConfHs.flight (h : ConfHs) : Bytes :=
+  encodeEncryptedExtensions h.ee ++ (handshake 11 h.cert ++ (handshake 15 h.cv ++ handshake 20 h.sfin))
+
+structure ConfHs.Ok (h : ConfHs) : Prop where
+  ch : h.ch.WellFormed
+  sh : h.sh.WellFormed
+  shE : h.sh.extensions = some h.shExts
+  ee : extsWf h.ee
+  cert : h.cert ≠ [] ∧ h.cert.length < 16777216
+  cv : h.cv ≠ [] ∧ h.cv.length < 16777216
+  sfin : h.sfin ≠ [] ∧ h.sfin.length < 16777216
+  cfin : h.cfin ≠ [] ∧ h.cfin.length < 16777216
+  chCut : IsCut (encodeClientHello h.ch) h.chFrs
+  chPerm : h.chDl.Perm (framesOf 0 h.chFrs ++ h.chDups)
+  chDupsOk : ∀ d ∈ h.chDups, d ∈ framesOf 0 h.chFrs
+  sCut : IsCut h.flight h.sFrs
+
+def inOf (srv : Bool) (pt : PType) (w : Wire) : CryptoIn := ⟨srv, pt, w.1, w.2.2, w.2.1⟩
+
+/-- the CRYPTO inputs of the handshake in processing order: ClientHello fragments (client Initial), ServerHello (server
+    Initial), the server's flight (server Handshake), the client's Finished (client Handshake) -/
+def ConfHs.ins (h : ConfHs) : List CryptoIn :=
+  h.chDl.map (inOf false .initial) ++
+  ([inOf true .initial (0, encodeServerHello h.sh, (encodeServerHello h.sh).length)] ++
+   ((framesOf 0 h.sFrs).map (inOf true .handshake) ++
+    [inOf false .handshake (0, handshake 20 h.cfin, (handshake 20 h.cfin).length)]))
+
+theorem inv_complete (frs : List Bytes) (D : List CFrame) (s : KState) (cum : List Bytes) (hinv : Inv frs D s cum)
+    (hd : C02Crypto.Delivery frs D) : cum = implFrame frs.flatten := by
+  obtain ⟨⟨j, hj, hoff, hmsgs, _⟩, _, _, hne, hkept⟩ := hinv
+  have hjm : j = frs.length := by
+    false_or_by_contra
+    rename_i hlt
+    obtain ⟨f, hf, hfo⟩ := C02Crypto.delivery_complete hd j (by omega)
+    exact hne f (hkept f hf (by rw [hfo, hoff]; exact Nat.le_refl _)) (by rw [hfo, hoff])
+  subst hjm
+  rw [hmsgs, List.take_length]
+
+theorem phase_inputs_ok (srv : Bool) (pt : PType) (frs : List Bytes) (ws : List Wire)
+    (h : ∀ w ∈ ws, w ∈ framesOf 0 frs) :
+    ∀ c ∈ ws.map (inOf srv pt), c.isServer = srv ∧ c.ptype = pt ∧
+      ∃ i, frs[i]? = some c.data ∧ c.offset = bnd frs i ∧ c.length = c.data.length := by
+  intro c hc
+  obtain ⟨w, hw, rfl⟩ := List.mem_map.mp hc
+  obtain ⟨i, d, hi, he⟩ := (C02Crypto.mem_framesOf 0 frs w).mp (h w hw)
+  refine ⟨rfl, rfl, i, ?_, ?_, ?_⟩ <;> simp [inOf, he, hi]
+
+theorem wireIn_inOf (srv : Bool) (pt : PType) (ws : List Wire) : (ws.map (inOf srv pt)).map wireIn = ws := by
+  induction ws with
+  | nil => rfl
+  | cons w ws ih => simp [inOf, wireIn, ih]
+
+theorem isCut_single (M : Bytes) (h : M ≠ []) : IsCut M [M] := ⟨by simp [h], by simp⟩
+
+theorem handshake_ne_nil (T : Nat) (b : Bytes) : handshake T b ≠ [] := by
+  intro h; have := congrArg List.length h; rw [handshake_length] at this; simp at this
+
+theorem prefix_single {α : Type} (cum new : List α) (m : α) (h : cum ++ new <+: [m]) :
+    new = [] ∨ (cum = [] ∧ new = [m]) := by
+  obtain ⟨r, hr⟩ := h
+  cases new with
+  | nil => exact Or.inl rfl
+  | cons a new' =>
+    right
+    cases cum with
+    | nil =>
+      simp only [List.nil_append, List.cons_append, List.cons.injEq] at hr
+      obtain ⟨rfl, h2⟩ := hr
+      have : new' = [] := by cases new' <;> simp_all
+      subst this; exact ⟨rfl, rfl⟩
+    | cons b cum' =>
+      simp only [List.cons_append, List.cons.injEq] at hr
+      have := hr.2
+      simp at this
+
+theorem clear_id (st : TlsMsgs.State) (h : st.newData = false) : { st with newData := false } = st := by
+  cases st; simp_all
+
+theorem encodeExts_body (es : List Ext) (h : extsWf es) : encodeExts es ≠ [] ∧ (encodeExts es).length < 16777216 := by
+  have hl : (encodeExts es).length = 2 + (extsPayload es).length := by
+    simp only [encodeExts, vec16, List.length_append, u16_length]
+  constructor
+  · intro he; rw [he] at hl; simp at hl; omega
+  · have := h.2; omega
+
+theorem flight_msgs (h : ConfHs) (hok : h.Ok) :
+    implFrame h.flight = [encodeEncryptedExtensions h.ee, handshake 11 h.cert, handshake 15 h.cv, handshake 20 h.sfin] := by
+  obtain ⟨e1, e2⟩ := encodeExts_body h.ee hok.ee
+  unfold ConfHs.flight encodeEncryptedExtensions
+  rw [(msgLoop_handshake_cons 8 _ _ e1 e2).1, (msgLoop_handshake_cons 11 _ _ hok.cert.1 hok.cert.2).1,
+    (msgLoop_handshake_cons 15 _ _ hok.cv.1 hok.cv.2).1]
+  have := (msgLoop_handshake_cons 20 h.sfin [] hok.sfin.1 hok.sfin.2).1
+  rw [List.append_nil, implFrame_nil.1] at this
+  rw [this]
+
+theorem single_msgs (T : Nat) (b : Bytes) (h1 : b ≠ []) (h2 : b.length < 16777216) :
+    implFrame [handshake T b].flatten = [handshake T b] := by
+  have := (msgLoop_handshake_cons T b [] h1 h2).1
+  rw [List.append_nil, implFrame_nil.1] at this
+  simpa using this
+
+theorem ch_body (ch : ClientHello) (h : ch.WellFormed) : ch.body ≠ [] ∧ ch.body.length < 16777216 := by
+  refine ⟨?_, h.2.2.2.2.2.2.2.2.2⟩
+  intro he
+  have := congrArg List.length he
+  simp only [ClientHello.body, List.length_append, h.1] at this
+  simp at this
+
+theorem sh_body (sh : ServerHello) (h : sh.WellFormed) : sh.body ≠ [] ∧ sh.body.length < 16777216 := by
+  refine ⟨?_, h.2.2.2.2.2⟩
+  intro he
+  have := congrArg List.length he
+  simp only [ServerHello.body, List.length_append, h.1] at this
+  simp at this
+
+/-- the effect of the messages of the server's flight and of the client's Finished on the attributes the session reads -/
+theorem feed_flight (h : ConfHs) (hok : h.Ok) (cr csel : Bytes) (new : List Bytes)
+    (hnew : ∀ m ∈ new, m = encodeEncryptedExtensions h.ee ∨ ∃ T b, m = handshake T b ∧ T < 256 ∧ T ≠ 1 ∧ T ≠ 2 ∧ T ≠ 8)
+    (st : TlsMsgs.State) (h1 : st.clientRandom = some cr) (h2 : st.ciphersuite = some csel) :
+    (feedRecords st new).clientRandom = some cr ∧ (feedRecords st new).ciphersuite = some csel := by
+  induction new generalizing st with
+  | nil => exact ⟨h1, h2⟩
+  | cons m new ih =>
+    have hrest := fun x hx => hnew x (List.mem_cons_of_mem _ hx)
+    have hstep : feedRecords st (m :: new) = feedRecords (feedRecords st [m]) new := by
+      simp [feedRecords]
+    rw [hstep]
+    rcases hnew m (List.mem_cons_self ..) with rfl | ⟨T, b, rfl, hT, n1, n2, n8⟩
+    · obtain ⟨q1, q2, q3, _⟩ := C02Hello.encrypted_extensions_parsed h.ee hok.ee st
+      have : feedRecords st [encodeEncryptedExtensions h.ee] = { extsEffect st h.ee with newData := true } := by
+        unfold encodeEncryptedExtensions at q1 ⊢
+        rw [feed_one 8 (by decide), q1]
+      rw [this]
+      exact ih hrest _ (by simpa using q2.trans h1) (by simpa using q3.trans h2)
+    · have : feedRecords st [handshake T b] = st := by
+        rw [feed_one T hT]
+        have hh := helloType_other T hT n1 n2 n8 b
+        have hm : handshake T b = UInt8.ofNat T :: (u24 b.length ++ b) := by simp [handshake, u8_eq]
+        have := handleRecord_not_hello st (handshake T b) hh (UInt8.ofNat T) _ hm
+        simp [Nat.mod_eq_of_lt hT] at this
+        rw [this]
+      rw [this]
+      exact ih hrest st h1 h2
+
+/-- **`PTrace` holds for conformant handshakes.** ClientHello (RFC 8446 encoder; any session id, suite list, extensions)
+    delivered as one CRYPTO frame or as ANY cut into fragments in ANY order with duplicates; ServerHello in one frame;
+    EncryptedExtensions ‖ Certificate ‖ CertificateVerify ‖ Finished over any in-order cut; the client's Finished: the
+    concrete `QuicTlsSession` never raises, and `new_data` comes with the ClientHello's random and — from the ServerHello
+    on — the selected suite. By `client_hello_parsed`, `server_hello_parsed`, `encrypted_extensions_parsed`, the `Inv` of
+    the CRYPTO reassembly (any order), `update_own_space` / `update_keeps_drained` (the spaces do not disturb each other). -/
+theorem ptrace_of_conformant (h : ConfHs) (hok : h.Ok) :
+    PTrace h.ch.random h.sh.cipherSuite {} h.ins := by
+  obtain ⟨cb1, cb2⟩ := ch_body h.ch hok.ch
+  obtain ⟨sb1, sb2⟩ := sh_body h.sh hok.sh
+  -- facts about the four streams
+  have hM1 : implFrame h.chFrs.flatten = [encodeClientHello h.ch] := by
+    rw [hok.chCut.2]
+    have := single_msgs 1 h.ch.body cb1 cb2
+    simp only [List.flatten_cons, List.flatten_nil, List.append_nil] at this
+    exact this
+  have hM2 : implFrame [encodeServerHello h.sh].flatten = [encodeServerHello h.sh] := single_msgs 2 _ sb1 sb2
+  have hM3 : implFrame h.sFrs.flatten =
+      [encodeEncryptedExtensions h.ee, handshake 11 h.cert, handshake 15 h.cv, handshake 20 h.sfin] := by
+    rw [hok.sCut.2]; exact flight_msgs h hok
+  have hM4 : implFrame [handshake 20 h.cfin].flatten = [handshake 20 h.cfin] := single_msgs 20 _ hok.cfin.1 hok.cfin.2
+  have r1 : recordRaises (encodeClientHello h.ch) = false := by
+    unfold encodeClientHello
+    rw [raises_one 1 (by decide)]
+    obtain ⟨s', e, _⟩ := C02Hello.client_hello_parsed h.ch hok.ch {}
+    unfold encodeClientHello at e; rw [e]; rfl
+  have r2 : recordRaises (encodeServerHello h.sh) = false := by
+    unfold encodeServerHello
+    rw [raises_one 2 (by decide)]
+    obtain ⟨s', e, _⟩ := C02Hello.server_hello_parsed h.sh hok.sh h.shExts hok.shE {}
+    unfold encodeServerHello at e; rw [e]; rfl
+  have r8 : recordRaises (encodeEncryptedExtensions h.ee) = false := by
+    unfold encodeEncryptedExtensions
+    rw [raises_one 8 (by decide)]
+    have e := (C02Hello.encrypted_extensions_parsed h.ee hok.ee {}).1
+    unfold encodeEncryptedExtensions at e; rw [e]; rfl
+  have rO : ∀ T b, T < 256 → T ≠ 1 → T ≠ 2 → T ≠ 8 → recordRaises (handshake T b) = false :=
+    fun T b hT n1 n2 n8 => recordRaises_not_hello _ (helloType_other T hT n1 n2 n8 b)
+  have hfl : ∀ m ∈ [encodeEncryptedExtensions h.ee, handshake 11 h.cert, handshake 15 h.cv, handshake 20 h.sfin],
+      m = encodeEncryptedExtensions h.ee ∨ ∃ T b, m = handshake T b ∧ T < 256 ∧ T ≠ 1 ∧ T ≠ 2 ∧ T ≠ 8 := by
+    intro m hm
+    simp only [List.mem_cons, List.not_mem_nil, or_false] at hm
+    rcases hm with rfl | rfl | rfl | rfl
+    · exact Or.inl rfl
+    · exact Or.inr ⟨11, _, rfl, by decide, by decide, by decide, by decide⟩
+    · exact Or.inr ⟨15, _, rfl, by decide, by decide, by decide, by decide⟩
+    · exact Or.inr ⟨20, _, rfl, by decide, by decide, by decide, by decide⟩
+  unfold ConfHs.ins
+  -- phase 1: the ClientHello, any order
+  apply ptrace_phase h.ch.random h.sh.cipherSuite false .initial .initial rfl h.chFrs hok.chCut.1
+    (by rw [hM1]; intro m hm; simp only [List.mem_singleton] at hm; subst hm; exact r1)
+    (fun cum st => cum = [encodeClientHello h.ch] →
+      st.clientRandom = some h.ch.random ∧ ∃ c, st.ciphersuite = some c)
+    (by
+      intro cum new st hpre hmi hnd
+      rw [hM1] at hpre
+      rcases prefix_single cum new _ hpre with rfl | ⟨rfl, rfl⟩
+      · simp only [List.append_nil, feedRecords, List.foldl_nil]
+        exact ⟨hmi, fun hh => by rw [hnd] at hh; cases hh⟩
+      · obtain ⟨s', e, c1, c2, ⟨c, c3, _⟩, _⟩ := C02Hello.client_hello_parsed h.ch hok.ch st
+        have hf : feedRecords st [encodeClientHello h.ch] = s' := by
+          unfold encodeClientHello at e ⊢; rw [feed_one 1 (by decide), e]
+        rw [hf]
+        refine ⟨fun _ => ⟨c1, c, by rw [c2, c3]⟩, fun _ => ⟨c1, c, by rw [c2, c3], fun hh => absurd ⟨rfl, rfl⟩ hh⟩⟩)
+    _ _ (phase_inputs_ok false .initial h.chFrs h.chDl (by
+      intro w hw
+      rcases List.mem_append.mp (hok.chPerm.mem_iff.mp hw) with hh | hh
+      · exact hh
+      · exact hok.chDupsOk w hh))
+    {} [] [] allDrained_init (inv_init _) (by intro g hg; cases hg) (by intro a ha; cases ha) (by intro hh; cases hh) rfl
+  intro t1 D1 cum1 d1 i1 ids1 idok1 mi1 nd1 oth1 w1
+  -- the ClientHello is complete
+  have hdel1 : C02Crypto.Delivery h.chFrs D1 := by
+    refine ⟨⟨h.chDups, ?_, hok.chDupsOk⟩, idok1⟩
+    rw [w1, wireIn_inOf]; simpa using hok.chPerm
+  have hc1 := inv_complete _ _ _ _ i1 hdel1
+  rw [hM1] at hc1
+  obtain ⟨cr1, cfirst, cs1⟩ := mi1 hc1
+  -- phase 2: the ServerHello
+  show PTrace _ _ t1 (List.map (inOf true .initial) [(0, encodeServerHello h.sh, (encodeServerHello h.sh).length)] ++ _)
+  apply ptrace_phase h.ch.random h.sh.cipherSuite true .initial .initial rfl [encodeServerHello h.sh]
+    (by intro c hc; simp only [List.mem_singleton] at hc; subst hc; exact handshake_ne_nil _ _)
+    (by rw [hM2]; intro m hm; simp only [List.mem_singleton] at hm; subst hm; exact r2)
+    (fun cum st => st.clientRandom = some h.ch.random ∧
+      (cum = [encodeServerHello h.sh] → st.ciphersuite = some h.sh.cipherSuite))
+    (by
+      intro cum new st hpre hmi hnd
+      rw [hM2] at hpre
+      rcases prefix_single cum new _ hpre with rfl | ⟨rfl, rfl⟩
+      · simp only [List.append_nil, feedRecords, List.foldl_nil]
+        exact ⟨hmi, fun hh => by rw [hnd] at hh; cases hh⟩
+      · obtain ⟨s', e, c1, _, c3, _⟩ := C02Hello.server_hello_parsed h.sh hok.sh h.shExts hok.shE st
+        have hf : feedRecords st [encodeServerHello h.sh] = s' := by
+          unfold encodeServerHello at e ⊢; rw [feed_one 2 (by decide), e]
+        rw [hf]
+        exact ⟨⟨c3.trans hmi.1, fun _ => c1⟩, fun _ => ⟨c3.trans hmi.1, _, c1, fun _ => rfl⟩⟩)
+    _ _ (phase_inputs_ok true .initial [encodeServerHello h.sh] _ (by
+      intro w hw; simp only [List.mem_singleton] at hw; subst hw; simp [framesOf]))
+    t1 [] [] d1 (by rw [oth1 _ (by decide)]; exact inv_init _) (by intro g hg; cases hg) (by intro a ha; cases ha)
+    ⟨cr1, fun hh => by cases hh⟩ nd1
+  intro t2 D2 cum2 d2 i2 ids2 idok2 mi2 nd2 oth2 w2
+  have hdel2 : C02Crypto.Delivery [encodeServerHello h.sh] D2 := by
+    refine ⟨⟨[], ?_, by simp⟩, idok2⟩
+    rw [w2]; simp [wireIn, inOf, framesOf]
+  have hc2 := inv_complete _ _ _ _ i2 hdel2
+  rw [hM2] at hc2
+  obtain ⟨cr2, cs2⟩ := mi2
+  have cs2 := cs2 hc2
+  -- phase 3: the server's flight
+  apply ptrace_phase h.ch.random h.sh.cipherSuite true .handshake .handshake rfl h.sFrs hok.sCut.1
+    (by
+      rw [hM3]; intro m hm
+      rcases hfl m hm with rfl | ⟨T, b, rfl, hT, n1, n2, n8⟩
+      · exact r8
+      · exact rO T b hT n1 n2 n8)
+    (fun _ st => st.clientRandom = some h.ch.random ∧ st.ciphersuite = some h.sh.cipherSuite)
+    (by
+      intro cum new st hpre hmi hnd
+      rw [hM3] at hpre
+      have hnew : ∀ m ∈ new, m = encodeEncryptedExtensions h.ee ∨
+          ∃ T b, m = handshake T b ∧ T < 256 ∧ T ≠ 1 ∧ T ≠ 2 ∧ T ≠ 8 :=
+        fun m hm => hfl m (hpre.subset (List.mem_append_right _ hm))
+      obtain ⟨q1, q2⟩ := feed_flight h hok _ _ new hnew st hmi.1 hmi.2
+      exact ⟨⟨q1, q2⟩, fun _ => ⟨q1, _, q2, fun _ => rfl⟩⟩)
+    _ _ (phase_inputs_ok true .handshake h.sFrs _ (fun w hw => hw))
+    t2 [] [] d2 (by rw [oth2 _ (by decide), oth1 _ (by decide)]; exact inv_init _) (by intro g hg; cases hg)
+    (by intro a ha; cases ha) ⟨cr2, cs2⟩ nd2
+  intro t3 D3 cum3 d3 i3 ids3 idok3 mi3 nd3 oth3 w3
+  -- phase 4: the client's Finished
+  show PTrace _ _ t3 (List.map (inOf false .handshake) [(0, handshake 20 h.cfin, (handshake 20 h.cfin).length)] ++ [])
+  apply ptrace_phase h.ch.random h.sh.cipherSuite false .handshake .handshake rfl [handshake 20 h.cfin]
+    (by intro c hc; simp only [List.mem_singleton] at hc; subst hc; exact handshake_ne_nil _ _)
+    (by rw [hM4]; intro m hm; simp only [List.mem_singleton] at hm; subst hm
+        exact rO 20 _ (by decide) (by decide) (by decide) (by decide))
+    (fun _ st => st.clientRandom = some h.ch.random ∧ st.ciphersuite = some h.sh.cipherSuite)
+    (by
+      intro cum new st hpre hmi hnd
+      rw [hM4] at hpre
+      have hnew : ∀ m ∈ new, m = encodeEncryptedExtensions h.ee ∨
+          ∃ T b, m = handshake T b ∧ T < 256 ∧ T ≠ 1 ∧ T ≠ 2 ∧ T ≠ 8 := by
+        intro m hm
+        have := hpre.subset (List.mem_append_right _ hm)
+        simp only [List.mem_singleton] at this
+        exact Or.inr ⟨20, _, this, by decide, by decide, by decide, by decide⟩
+      obtain ⟨q1, q2⟩ := feed_flight h hok _ _ new hnew st hmi.1 hmi.2
+      exact ⟨⟨q1, q2⟩, fun _ => ⟨q1, _, q2, fun _ => rfl⟩⟩)
+    [] _ (phase_inputs_ok false .handshake [handshake 20 h.cfin] _ (by
+      intro w hw; simp only [List.mem_singleton] at hw; subst hw; simp [framesOf]))
+    t3 [] [] d3 (by rw [oth3 _ (by decide), oth2 _ (by decide), oth1 _ (by decide)]; exact inv_init _)
+    (by intro g hg; cases hg) (by intro a ha; cases ha) mi3 nd3
+  intro _ _ _ _ _ _ _ _ _ _ _
+  trivial
+
+end Conformant
+
 end TLX.Props.C02Capstone
